@@ -246,6 +246,14 @@ def run(rep, tier, rng):
         cases.append([dict(cfg={'b': 1}, symbols={'leak%d' % j: 5}, code='leak%d + b' % j, kind='eval', filename='/tmp/prog.yaml'),
                       dict(cfg={'b': 2}, symbols={}, code='leak%d + b' % j, kind='eval', filename='/tmp/prog.yaml')])
     cases.append([dict(cfg=evalgen.CFG, symbols={}, code="'a;b'", kind='eval', filename='/tmp/prog.yaml')])
+    # plain one-line !eval whose whole text is a scalar of another YAML type (the code text must reach Python as written): config entries named
+    # yes / no / on / off / null shadow nothing in Python, YAML-only numerals are Python syntax errors
+    ycfg = {'yes': 5, 'no': 6, 'on': 7, 'off': 8, 'null': 9, 'Yes': 10}
+    for code in ('yes', 'no', 'on', 'off', 'null', 'Yes', 'yes + 1', '017', '1:30', '1__0', '0o17', '1_000', 'None', 'True'):
+        cases.append([dict(cfg=ycfg, symbols={}, code=code, kind='eval-plain', filename='/tmp/prog.yaml')])
+    # identical multi-line code under two different paths of one config: every node computes in a namespace of its own
+    for code in ('a = a * 2\na + 16', 'acc = [a]\nacc.append(b)\nacc', 'if zero:\n    w = 1\nelse:\n    a = a + 5\na', 'def h(q):\n    return q + a\nh(b)'):
+        cases.append([dict(cfg=evalgen.CFG, symbols={}, code=code, kind='eval-two', filename='/tmp/prog.yaml')])
     results = evaldrive.run_all(cases, batch=25)
 
     def judge(cr):
